@@ -333,6 +333,13 @@ class PipeFunc(Generic[T]):
         """
         if self._output_picker is None and isinstance(self.output_name, tuple):
             return functools.partial(_default_output_picker, output_name=self.output_name)
+        if self._output_picker is not None and self._inverse_renames:
+            # The custom picker knows the names that the function itself uses, not the renamed ones
+            return functools.partial(
+                _original_name_output_picker,
+                output_picker=self._output_picker,
+                inverse_renames=dict(self._inverse_renames),
+            )
         return self._output_picker
 
     def update_defaults(self, defaults: dict[str, Any], *, overwrite: bool = False) -> None:
@@ -1174,7 +1181,7 @@ class NestedPipeFunc(PipeFunc):
     def func(self) -> Callable[..., tuple[Any, ...]]:  # type: ignore[override]
         func = self.pipeline.func(self.pipeline.unique_leaf_node.output_name)
         output_pickers = {
-            f.output_name: f._output_picker
+            f.output_name: f.output_picker
             for f in self.pipeline.functions
             if isinstance(f.output_name, tuple) and f._output_picker is not None
         }
@@ -1382,6 +1389,16 @@ def _validate_combinable_mapspecs(mapspecs: list[MapSpec | None]) -> None:
         if m.output_indices != first.output_indices:
             msg = "Cannot combine MapSpecs with different output mappings."
             raise ValueError(msg)
+
+
+def _original_name_output_picker(
+    output: Any,
+    name: str,
+    output_picker: Callable[[Any, str], Any],
+    inverse_renames: dict[str, str],
+) -> Any:
+    """Call a custom output picker with the original (not renamed) output name."""
+    return output_picker(output, inverse_renames.get(name, name))
 
 
 def _default_output_picker(output: Any, name: str, output_name: OUTPUT_TYPE) -> Any:
